@@ -648,6 +648,25 @@ def effective_colours(css_text, prop="color"):
     return out
 
 
+def compact_sheet(n, rnd):
+    """minified stylesheet of n rules, every colour a six-digit hex literal and no space anywhere: re-serialising a rule
+    changes no length, so two runs with different settings write files of exactly the same size.  Mid-dark greys read well on
+    white and fail on black, mid-light ones the other way round; some rules carry their own background."""
+    nodes = []
+    for k in range(n):
+        kind = rnd.random()
+        g = rnd.randrange(70, 112) if kind < 0.45 else rnd.randrange(150, 200) if kind < 0.9 else rnd.randrange(118, 135)
+        c = (g, min(255, g + rnd.choice([0, 0, 3])), g)
+        bg = None if rnd.random() < 0.8 else ("lit", rnd.choice(["#ffffff", "#000000", "#101820"]))
+        nodes.append({"t": "rule", "sel": ".k%d" % k, "text": ("lit", pairs.hexs(c)), "bg": bg, "extras": rnd.choice([[], ["margin:0"]]),
+                      "imp": False, "dup": False, "comment": False})
+    out = []
+    for nd in nodes:
+        decls = list(nd["extras"]) + ["color:" + nd["text"][1]] + (["background-color:" + nd["bg"][1]] if nd["bg"] else [])
+        out.append(nd["sel"] + "{" + ";".join(decls) + "}")
+    return nodes, "".join(out)
+
+
 def positional_sheet(k1, k2, k3, minified, rnd):
     """k1 filler rules, an @media block with k2 fillers and then a target rule, k3 fillers, then an html rule that declares a
     failing colour directly (plus a custom property used by the nested target); positions matter to index-based bookkeeping"""
